@@ -295,6 +295,11 @@ def gen_sections(r, wf):
                                 exp.pop(lo + k, None)
                                 exp[("skip", lo + k)] = 1
                         code = ("b", bytes(tb))
+                    elif r.random() < 0.35:
+                        # the increment carries out of the last byte (outside ISO's grammar, common in practice):
+                        # model-vs-implementation only
+                        code = ("b", bytes([r.choice([0x00, 0x4D, 0xD8]), r.choice([0xF0, 0xFE, 0xFF])]) if r.random() < 0.7
+                                else bytes([0x00, 0x41, 0xFF, r.choice([0xFA, 0xFF])]))
                     else:
                         code = r.choice([("b", bytes(r.randrange(256) for _ in range(r.choice([0, 1, 2, 2, 4, 6])))), ("i", 97), ("n", "a"), ("o", None)])
                 else:
